@@ -7,8 +7,8 @@ in : {"queries":[[query,key,[slot,…]],…], "regs":[[slot,view],…], "ops":[o
      op = {"op":"reg","mods":[[slot,view|null],…]}                      whole registration, no pre-emption
         | {"op":"lookup","q":query,"inject":null|{"at":"probe"|"write"|j,"mods":[…]}}
               one `_find_views` call; a whole registration is injected after the cache reference was read
-              ("probe"), before the j-th `registered` call (j = 0,1,…), or with the lock held just before
-              the dict write ("write")
+              ("probe"), before the j-th `registered` call (j = 0,1,…), or when the scan is complete and
+              non-empty, just BEFORE `registry._lock` is acquired for the dict write ("write")
         | {"op":"split","mods":[…],"after":m,"qs":[query,…]}
               the registrar is pre-empted after its m-th adapter mutation; the lookups of `keys` run to
               completion there; then the registrar finishes
@@ -111,8 +111,11 @@ def main : IO Unit := jsonDriver fun j => do
           s := step P cfg s (.thread tid)
           inj := true
         | .str "write" =>
-          s := runThread P cfg tid (fun pc => match pc with | .holding _ _ => true | _ => false) fuel s
-          inj := match pcOf s tid with | some (.holding _ _) => true | _ => false
+          let atEnd : PC → Bool := fun pc => match pc with
+            | .scan _ i acc => i ≥ (slots k).length && !acc.isEmpty
+            | _ => false
+          s := runThread P cfg tid atEnd fuel s
+          inj := match pcOf s tid with | some pc => atEnd pc | none => false
         | a =>
           let jn : Nat ← fromJson? a
           s := runThread P cfg tid (fun pc => match pc with | .scan _ i _ => i == jn | _ => false) fuel s
